@@ -263,6 +263,7 @@ fn undefined_matrix() -> Vec<(String, E)> {
             ("concat-left", E::Bin("in", bx(E::Lit(V::Int(1))), bx(E::Arr(vec![s.clone()])))),
             ("length", E::Filt(bx(s.clone()), "length", None)),
             ("slice", E::Slice(bx(s.clone()), Some(bx(E::Lit(V::Int(0)))), None, None)),
+            ("slice-bound", E::Slice(bx(var("xs")), Some(bx(s.clone())), None, None)),
             ("in-array-literal", E::Arr(vec![s.clone()])),
         ];
         for (uname, e) in uses {
